@@ -33,8 +33,8 @@ CHECKS = {
    design="1/C09 and 6.6", engine="E4 fault"),
  "C17": dict(
    level="model_checking",
-   text="Explicit-state exploration of thread interleavings at operation granularity on the real objects: 7 shared *font.Font (glyf+gvar, CFF2 variable, CFF, morx, colour bitmap, GSUB/GPOS, HVAR variable) x every pair of 2-operation thread programs and every triple of 1-operation programs over 9 colliding operations (NewFace+metrics, cmap, glyph queries, SetVariations+queries, HarfbuzzShaper.Shape, Buffer.Shape, FontMap+Segmenter.Split, ppem+GlyphData, Describe+segmenter) x every interleaving. After every transition the deep hash (unexported fields, full slice capacity, maps) of the shared font and of the package-level variables is compared with the one before; every result is compared with the solo run of the same thread program. In the solo runs all 289 package-level variables of the 12 repository packages (listed from source at build time by tools/c17gen through a build overlay) are hashed around every operation.",
-   note="The repository has one synchronisation primitive (a sync.Once in fontscan): any write to a shared root is therefore a data race by definition, which is what the monitor decides exhaustively over the explored operation sequences. Interleavings inside an operation are not explored; the free-running -race pass (64 goroutines, same operations, plus concurrent UseSystemFonts on a scratch directory for the sync.Once) is the complementary, sampling detector and is reported as such in the evidence. Needs tools/c17gen + -overlay (run.sh does it); if the -race build is unavailable the pass is skipped and counted.",
+   text="Explicit-state exploration of thread interleavings at operation granularity on the real objects: 8 shared *font.Font (glyf+gvar, CFF2 variable, CFF, morx, colour bitmap, bloc bitmap with a constant-metrics index subtable, GSUB/GPOS, HVAR variable; plus one font per character map implementation) x every pair of 2-operation thread programs and every triple of 1-operation programs over 9 colliding operations (NewFace+metrics, cmap, glyph queries, SetVariations+queries, HarfbuzzShaper.Shape, Buffer.Shape, FontMap+Segmenter.Split, ppem+GlyphData, Describe+segmenter) x every interleaving. After every transition the deep hash (unexported fields, full slice capacity, maps) of the shared font and of the package-level variables is compared with the one before; every result is compared with the solo run of the same thread program. In the solo runs all 289 package-level variables of the 12 repository packages (listed from source at build time by tools/c17gen through a build overlay) are hashed around every operation.",
+   note="The repository has one synchronisation primitive (a sync.Once in fontscan): any write to a shared root is therefore a data race by definition, which is what the monitor decides exhaustively over the explored operation sequences. Interleavings inside an operation are not explored; the free-running -race pass (64 goroutines, same operations, plus concurrent UseSystemFonts on a scratch directory for the sync.Once, plus 16 goroutines reading 1500 bitmap glyphs of the two large bitmap fonts with index subtable formats 1, 2 and 5, compared with the solo answers) is the complementary, sampling detector and is reported as such in the evidence. Needs tools/c17gen + -overlay (run.sh does it); if the -race build is unavailable the pass is skipped and counted.",
    technique="explicit-state exploration of operation interleavings on the real objects with a write monitor over the shared roots and a differential (solo run) oracle (E3); free-running race detector pass as a non-exhaustive complement",
    design="1/C17 and 6.7", engine="E3 sched"),
  "C01": dict(
